@@ -238,6 +238,9 @@ pub enum Edit {
     FlipEol,
     /// toggle the final newline
     ToggleFinalNewline,
+    /// throw away what the agents wrote: delete every line of the file whose last
+    /// substantive editor is an AI session (a person rejecting a suggestion wholesale)
+    DeleteAgentLines,
 }
 
 impl Edit {
@@ -257,6 +260,7 @@ impl Edit {
             Edit::MoveBlock { .. } => "move-block",
             Edit::FlipEol => "flip-eol",
             Edit::ToggleFinalNewline => "toggle-final-newline",
+            Edit::DeleteAgentLines => "delete-agent-lines",
         }
     }
     pub fn is_whitespace_only(&self) -> bool {
@@ -323,6 +327,34 @@ pub fn apply_edit(fs: &mut FileState, model: &mut Model, who: Actor, edit: &Edit
                 let l = render_line(s, &t);
                 model.wrote(&l, who, true);
                 fs.lines.insert(i + n, l);
+            }
+        }
+        Edit::DeleteAgentLines => {
+            let doomed: Vec<usize> = fs
+                .lines
+                .iter()
+                .enumerate()
+                .filter(|(_, l)| model.map.get(&key_of(l)).map(|e| e.last.is_ai()).unwrap_or(false))
+                .map(|(i, _)| i)
+                .collect();
+            if doomed.is_empty() || doomed.len() == fs.lines.len() && fs.lines.len() == 1 {
+                kind = "insert";
+                insert_lines(fs, model, who, 0, &[LineSpec { style: 1, indent: 0 }]);
+            } else {
+                for i in doomed.iter().rev() {
+                    fs.lines.remove(*i);
+                }
+                // deletion markers next to every removed run (same rule as Delete)
+                let mut removed_before = 0usize;
+                for i in &doomed {
+                    let at = i - removed_before;
+                    removed_before += 1;
+                    for j in [at.wrapping_sub(2), at.wrapping_sub(1), at, at + 1] {
+                        if let Some(l) = fs.lines.get(j) {
+                            model.del_neighbors.entry(key_of(l)).or_default().insert(who);
+                        }
+                    }
+                }
             }
         }
         Edit::Delete { pos, count } => {
